@@ -46,7 +46,7 @@ def storedValue (lam : List Rat) (h : Hyp) : Rat := EGLoopGen.hValue h.err (dot 
 /-- `values.idxmin()` scanning from position `i` with current best `(bi, bv)`: FIRST index of the minimum -/
 def argminFrom : List Rat → Nat → Nat → Rat → Nat × Rat
   | [], _, bi, bv => (bi, bv)
-  | v :: vs, i, bi, bv => if v < bv then argminFrom vs (i + 1) i v else argminFrom vs (i + 1) bi bv
+  | v :: vs, i, bi, bv => if EGLoopGen.argBetter v bv then argminFrom vs (i + 1) i v else argminFrom vs (i + 1) bi bv
 
 def argmin : List Rat → Option (Nat × Rat)
   | [] => none
@@ -67,8 +67,10 @@ structure Ctx where
   ratioOne : Bool
   nu : Rat
 
-/-- the multiplier `_eval` really uses: `self.constraints.project_lambda(lambda_vec)` (opt_lambda=True) -/
-def projLam (X : Ctx) (lam : List Rat) : Nat → Rat := projectIf X.ratioOne (X.c.length / 2) (vec lam)
+/-- the multiplier `L` is computed with in `_eval`: `self.constraints.project_lambda(lambda_vec)` (opt_lambda=True) when the
+    projection statement precedes `L = ...` (lifted statement order: `EGLoopGen.evalProjectsFirst`), else the argument -/
+def projLam (X : Ctx) (lam : List Rat) : Nat → Rat :=
+  if EGLoopGen.evalProjectsFirst then projectIf X.ratioOne (X.c.length / 2) (vec lam) else vec lam
 
 structure GapRes where
   L : Rat
@@ -78,7 +80,7 @@ structure GapRes where
 def GapRes.gap (r : GapRes) : Rat := EGGen.gapOf r.L r.Llow r.Lhigh
 
 /-- `if L_low_mul < result.L_low: result.L_low = L_low_mul` -/
-def updLow (r : GapRes) (lowMul : Rat) : GapRes := if lowMul < r.Llow then { r with Llow := lowMul } else r
+def updLow (r : GapRes) (lowMul : Rat) : GapRes := if EGGen.lowImproves lowMul r.Llow then { r with Llow := lowMul } else r
 
 /-- the `for mul in [...]` loop of `eval_gap`; `k` counts oracle calls -/
 def evalLoop (X : Ctx) (O : Nat → Hyp) (lamHat : List Rat) :
@@ -158,7 +160,7 @@ structure State where
 
 def initState (P : Params) : State :=
   { t := 0, done := false, theta := List.replicate P.c.length EGLoopGen.thetaInit,
-    eta := EGLoopGen.etaInit P.eta0 P.B, qsum := [], lastChecked := EGLoopGen.lastCheckedInit, lastGap := none,
+    eta := EGLoopGen.etaInit P.eta0 P.B, qsum := [], lastChecked := EGLoopGen.lastCheckedInit, lastGap := EGLoopGen.lastGapInit,
     hs := [], calls := 0, lpCalls := 0, lpN := 0, lpRes := none, lpFrom := ([], 0), lamCols := [], lamEGs := [], thetas := [], etas := [],
     gapsEG := [], gaps := [], qs := [], fromLP := [], lamLP := [], certs := [], shrinks := 0, checks := 0, cacheHits := 0 }
 
@@ -168,7 +170,7 @@ def lamVec (P : Params) (theta : List Rat) : List Rat :=
 
 /-- `self.lambda_vecs_EG_.mean(axis=1)` over the `n` multiplier entries -/
 def meanCols (n : Nat) (cols : List (List Rat)) : List Rat :=
-  (List.range n).map (fun j => (cols.map (fun col => col.getD j 0)).sum / (cols.length : Rat))
+  (List.range n).map (fun j => EGLoopGen.lamEGAgg (cols.map (fun col => col.getD j 0)).sum cols.length)
 
 /-- `if h_idx not in Qsum.index: Qsum.at[h_idx] = 0.0` then `Qsum[h_idx] += 1.0`.  `Qsum` is a Series keyed by
     classifier index; here it is the list by index, absent keys are 0 entries (they contribute nothing to any sum). -/
@@ -248,6 +250,14 @@ def shrinkOf (P : Params) (s : State) (D : Decision) : Bool :=
 def etaOf (P : Params) (s : State) (D : Decision) : Rat :=
   if shrinkOf P s D then EGLoopGen.etaShrunk s.eta else s.eta
 
+/-- `Qs.append(Q_EG)` / `Qs.append(Q_LP)`.  A Python list holds REFERENCES: only if every appended object is built afresh in
+    each pass and never updated in place (the lifted data-flow fact `EGLoopGen.qsEntriesFresh`) does `Qs[t]` keep the value
+    of iteration `t`.  Otherwise every EG entry appended earlier is the one object `Q_EG` and shows its current value `qEG`
+    (what the seeded change C08a did).  `Lemmas/EGLoop.lean:storeQ_fresh` is the form the proofs use. -/
+def storeQ (qs : List (List Rat)) (fromLP : List Bool) (qEG q : List Rat) : List (List Rat) :=
+  if EGLoopGen.qsEntriesFresh then qs ++ [q]
+  else List.zipWith (fun (lp : Bool) (old : List Rat) => if lp then old else qEG) fromLP qs ++ [q]
+
 /-- the rest of the body: append, break test, regret check with the eta shrink, theta update -/
 def finish (P : Params) (s : State) (D : Decision) : State :=
   { t := s.t + 1, done := brkOf P s D,
@@ -257,7 +267,7 @@ def finish (P : Params) (s : State) (D : Decision) : State :=
     lastGap := if dueOf P s D then some (bestGapOf s D) else s.lastGap,
     hs := D.s2.hs, calls := D.s2.calls, lpCalls := D.s2.lpCalls, lpN := D.s2.lpN, lpRes := D.s2.lpRes, lpFrom := D.s2.lpFrom,
     lamCols := s.lamCols ++ [D.lam], lamEGs := s.lamEGs ++ [D.lamEG], thetas := s.thetas ++ [s.theta],
-    etas := s.etas ++ [etaOf P s D], gapsEG := s.gapsEG ++ [D.gapEG], gaps := s.gaps ++ [D.gap], qs := s.qs ++ [D.q],
+    etas := s.etas ++ [etaOf P s D], gapsEG := s.gapsEG ++ [D.gapEG], gaps := s.gaps ++ [D.gap], qs := storeQ s.qs s.fromLP (normalise D.qsum) D.q,
     fromLP := s.fromLP ++ [!D.useEG],
     lamLP := match D.lpLam with | none => s.lamLP | some l => s.lamLP ++ [(s.t, l)],
     certs := s.certs ++ [(D.cert, D.gap, D.q)],
@@ -283,11 +293,12 @@ def lastIterOf (s : State) : Int := EGLoopGen.lastIter s.qs.length
 /-- `for h_idx in self._hs.index: if h_idx not in self.weights_.index: self.weights_.at[h_idx] = 0.0` -/
 def padTo (n : Nat) (q : List Rat) : List Rat := q ++ List.replicate (n - q.length) 0
 
-/-- `weights_ = Qs[best_iter_]`, then zero padding to every stored classifier -/
+/-- `weights_ = Qs[best_iter_]` (the position is the lifted `EGGen.weightsPick`), then zero padding to every stored
+    classifier -/
 def weightsOf (s : State) : List Rat :=
   match bestIterOf s with
   | none => []
-  | some b => padTo s.hs.length (s.qs.getD b [])
+  | some b => padTo s.hs.length (s.qs.getD (EGGen.weightsPick b (s.qs.length - 1)) [])
 
 /-! ### driver glue -/
 
